@@ -8,7 +8,7 @@ from .skeletons import skeleton, U7, UN3, KINDS_SMALL
 from .mutate import mutate
 
 LEVEL = 'fault_enumeration'
-BUDGET_S = {'quick': 150, 'thorough': 1500}
+BUDGET_S = {'quick': 170, 'thorough': 1800}
 BOUNDS = {
     'quick': 'universe U7; skeleton set A; crash point symbolic: any statement boundary of the root function or of any '
              'nested function (before each statement / after the last), on history prefixes none, B, B.M (deleted / '
@@ -32,8 +32,8 @@ def families(tier):
                                   'modes': ['ok', 'raise_after', 'no_create']}},
         {'name': 'A3', 'params': {'hist': 'BMF', 'kinds': ['is_file'], 'roles': ['in/x'], 'targets': ['o/d/g'],
                                   'modes': ['ok', 'raise_after'], 'mut_paths': mp4}, 'weight': 3},
-        {'name': 'A5a', 'params': {'hist': 'BMF', 'modes': ['ok', 'raise_after'], 'mut_paths': ['o/d', 'o/d/g', 'o/f']}, 'weight': 3},
-        {'name': 'A5b', 'params': {'hist': 'BMF', 'modes': ['ok'], 'mut_paths': mp4}, 'weight': 2},
+        {'name': 'A5a', 'params': {'hist': 'BMF', 'modes': ['ok'], 'mut_paths': ['o/d', 'o/d/g']}, 'weight': 3},
+        {'name': 'A5b', 'params': {'hist': 'BMF', 'modes': ['ok'], 'mut_paths': ['o/d', 'o/d/g']}, 'weight': 2},
         {'name': 'A4', 'params': {'hist': 'BMF', 'kinds': ['is_dir'], 'roles': ['o'], 'targets': ['o/d/g'],
                                   'modes': ['ok', 'raise_after'], 'mut_paths': ['o/d', 'o/d/g']}, 'weight': 2},
         {'name': 'A8', 'params': {'hist': 'BF', 'kinds': ['is_dir']}},
@@ -45,6 +45,8 @@ def families(tier):
     if tier == 'quick':
         return q
     return q + [
+        {'name': 'A5a', 'params': {'hist': 'BMF', 'modes': ['ok', 'raise_after'], 'mut_paths': ['o/d', 'o/d/g', 'o/f']}, 'weight': 4},
+        {'name': 'A5b', 'params': {'hist': 'BMF', 'modes': ['ok'], 'mut_paths': mp4}, 'weight': 3},
         {'name': 'A3', 'params': {'hist': 'BMF', 'kinds': KINDS_SMALL, 'roles': ['in/x', 'o']}, 'weight': 4},
         {'name': 'A5a', 'params': {'hist': 'BMF', 'modes': ['ok', 'raise_before', 'raise_after']}, 'weight': 4},
         {'name': 'A5b', 'params': {'hist': 'BMF', 'modes': ['ok', 'raise_before', 'raise_after']}, 'weight': 4},
